@@ -13,10 +13,12 @@ Shape == /\ Chk("container type", Ev.tout, Ev.tin)
          /\ Chk("column labels", Ev.colsout, IF Ev.op = "cover" THEN Ev.colsexp ELSE Ev.colsin)
          /\ Chk("input unchanged", Ev.inafter, Ev.in)
 Expect(m) == ChkB("output", MatEq(Ev.out, m), <<"row count", Len(Ev.out), Len(m)>>)
+(* swapping columns, swapping / joining class labels MOVE values: every entry of the output is an entry of the input or an argument, digit for digit *)
+ExpectExact(m) == Chk("output (values are moved, not computed)", Ev.out, m)
 Call == /\ More /\ Shape
-        /\ CASE Ev.op = "swap"      -> Expect(Swap(Ev.in, Ev.from, Ev.to, Ev.c1, Ev.c2))
-             [] Ev.op = "labelswap" -> Expect(LabelSwap(Ev.in, Ev.from, Ev.to, Ev.c1, Ev.k1, Ev.k2))
-             [] Ev.op = "labeljoin" -> Expect(LabelJoin(Ev.in, Ev.from, Ev.to, Ev.c1, Ev.k1, Ev.k2, Ev.knew))
+        /\ CASE Ev.op = "swap"      -> ExpectExact(Swap(Ev.in, Ev.from, Ev.to, Ev.c1, Ev.c2))
+             [] Ev.op = "labelswap" -> ExpectExact(LabelSwap(Ev.in, Ev.from, Ev.to, Ev.c1, Ev.k1, Ev.k2))
+             [] Ev.op = "labeljoin" -> ExpectExact(LabelJoin(Ev.in, Ev.from, Ev.to, Ev.c1, Ev.k1, Ev.k2, Ev.knew))
              [] Ev.op = "shift"     -> Expect(Shift(Ev.in, Ev.from, Ev.to, Ev.c1, Ev.factor, Ev.alpha))
              [] Ev.op = "brownian"  -> /\ ChkB("frame", Frame(Ev.in, Ev.out, Ev.from, Ev.to, {Ev.c1}), "outside window/column changed")
                                        /\ ChkB("random walk from x0 with steps 1/sqrt(n)", WalkOK(Ev.in, Ev.out, Ev.from, Ev.to, Ev.c1, Ev.x0), Ev.x0)
